@@ -16,10 +16,10 @@ SWAPPED = {"fpr": "fnr", "fnr": "fpr", "tpr": "tnr", "tnr": "tpr", "topr": "tonr
 METHODS = ("linear", "lower", "higher")
 
 
-def _mk(pos, neg, ep, en, sc, ec, dt=float):
+def _mk(pos, neg, ep, en, sc, ec, dt=float, ndt=None):
     from score_analysis import Scores
 
-    return Scores(np.asarray(pos, dtype=dt), np.asarray(neg, dtype=dt), nb_easy_pos=ep,
+    return Scores(np.asarray(pos, dtype=dt), np.asarray(neg, dtype=ndt or dt), nb_easy_pos=ep,
                   nb_easy_neg=en, score_class=sc, equal_class=ec)
 
 
@@ -46,13 +46,24 @@ def _cases(draw, max_size=9):
     else:
         a = draw(st.sampled_from([0.1, 3.0, 7.3, 1e-3, 123.456]))
         b = draw(st.floats(min_value=-1000, max_value=1000))
-    return dict(s=s, thr=thr, targets=targets, a=a, b=b, exact=exact)
+    return dict(s=s, thr=thr, targets=targets, a=a, b=b, exact=exact,
+                neg_dtype=draw(st.sampled_from([None, None, "int", "float32", "int8"])))
 
 
 def check(case):
     s = case["s"]
     pos, neg, ep, en = s["pos"], s["neg"], s["ep"], s["en"]
     dt = int if s["mode"] == "int" else float
+    # the negatives may be held in a narrower dtype than the positives (same values)
+    ndt = case.get("neg_dtype")
+    def _fits(x):
+        x = float(x)
+        if abs(x) >= 100:
+            return False
+        return x == int(x) if ndt in ("int", "int8") else float(np.float32(x)) == x
+
+    if ndt and not (dt is float and neg and all(_fits(x) for x in neg)):
+        ndt = None
     shape = tuple(case["thr"]["shape"])
     thr = gen.np_array(case["thr"]["flat"], shape)
     thr_arg = thr.astype(case["thr"]["dtype"]) if case["thr"].get("dtype") else thr  # same values, narrow dtype
@@ -85,7 +96,7 @@ def check(case):
         exact_thr |= safe
     for sc, ec in CONFIGS:
         ctx = f"config={sc}/{ec}"
-        o = _mk(pos, neg, ep, en, sc, ec, dt)
+        o = _mk(pos, neg, ep, en, sc, ec, dt, ndt)
         cm = o.cm(thr_arg).matrix
         # --- swap
         sw = o.swap()
@@ -98,7 +109,7 @@ def check(case):
                         "sym:swap-rates", f"{ctx}: {m1} vs swapped {m2}")
         require(sw.swap() == o, "sym:swap-involution", ctx)
         # --- negation with flipped score_class
-        ng = _mk(npos, nneg, ep, en, FLIP[sc], ec, dt)
+        ng = _mk(npos, nneg, ep, en, FLIP[sc], ec, dt, ndt)
         require(np.array_equal(ng.cm(-thr_arg).matrix, cm), "sym:negation-cm",
                 lambda: f"{ctx}: negated object at -t differs at t={thr.tolist()}")
         # --- affine
@@ -160,7 +171,11 @@ def _group_cases(draw):
     pg = draw(st.lists(g, min_size=len(s["pos"]), max_size=len(s["pos"])))
     ng = draw(st.lists(g, min_size=len(s["neg"]), max_size=len(s["neg"])))
     thr = draw(gen.threshold_values(s["pos"] + s["neg"], 3))
-    return dict(s=s, pg=pg, ng=ng, thr=thr, touch=draw(st.sampled_from(["none", "getitem", "group_cm"])))
+    present = sorted(set(pg) | set(ng))
+    # explicitly given group names are "used as is and not sorted"
+    given = draw(st.one_of(st.none(), st.permutations(present))) if present else None
+    return dict(s=s, pg=pg, ng=ng, thr=thr, touch=draw(st.sampled_from(["none", "getitem", "group_cm"])),
+                given=None if given is None else list(given))
 
 
 def check_group(case):
@@ -174,7 +189,8 @@ def check_group(case):
         g = GroupScores(np.asarray(s["pos"], dtype=float), np.asarray(s["neg"], dtype=float),
                         pos_groups=np.asarray(case["pg"], dtype=str),
                         neg_groups=np.asarray(case["ng"], dtype=str),
-                        score_class=sc, equal_class=ec)
+                        score_class=sc, equal_class=ec,
+                        **(dict(group_names=np.asarray(case["given"], dtype=str)) if case.get("given") else {}))
         # per-group queries before swapping fill the object's lazy per-group cache
         if case.get("touch") == "getitem":
             for name in g.groups:
@@ -185,10 +201,20 @@ def check_group(case):
         require(isinstance(sw, GroupScores), "sym:group-swap-type", str(type(sw)))
         require(np.array_equal(sw.cm(thr).matrix, g.cm(thr).matrix[..., ::-1, ::-1]),
                 "sym:group-swap-cm", f"config={sc}/{ec}")
-        require(list(sw.groups) == list(g.groups), "sym:group-swap-names",
-                f"{list(sw.groups)} vs {list(g.groups)}")
-        require(np.array_equal(sw.group_cm(thr).matrix, g.group_cm(thr).matrix[..., ::-1, ::-1]),
+        if case.get("given"):
+            # swap() derives the name list afresh: rows are matched by name
+            require(sorted(sw.groups) == sorted(g.groups), "sym:group-swap-names",
+                    f"{list(sw.groups)} vs {list(g.groups)}")
+            rows = [list(sw.groups).index(nm) for nm in g.groups]
+        else:
+            require(list(sw.groups) == list(g.groups), "sym:group-swap-names",
+                    f"{list(sw.groups)} vs {list(g.groups)}")
+            rows = list(range(len(g.groups)))
+        require(np.array_equal(sw.group_cm(thr).matrix[rows], g.group_cm(thr).matrix[..., ::-1, ::-1]),
                 "sym:group-swap-group-cm", f"config={sc}/{ec}")
+        for nm in g.groups:
+            require(np.array_equal(sw[nm].cm(thr).matrix, g[nm].cm(thr).matrix[..., ::-1, ::-1]),
+                    "sym:group-swap-group-cm", f"config={sc}/{ec} group {nm!r} by indexing")
         before = sorted(zip(g.pos.tolist(), g.pos_groups.tolist()))
         after = sorted(zip(sw.neg.tolist(), sw.neg_groups.tolist()))
         require(before == after, "sym:group-swap-labels", f"{before} vs {after}")
